@@ -393,6 +393,8 @@ pub fn deflate_case(
             }
         }
     };
+    let mut prev_spare = true;
+    let mut points = 0;
     for &(ch, ol, fl) in calls {
         if finish_seen && fl != MZFlush::Finish {
             misuse = true;
@@ -400,12 +402,26 @@ pub fn deflate_case(
         if fl == MZFlush::Finish {
             finish_seen = true;
         }
+        let offered = ch.min(input.len() - pos);
         match do_call(tr, &mut pos, ch, ol, fl, &mut out_all) {
             None => return,
             Some(res) => {
                 if res.status == Ok(miniz_oxide::MZStatus::StreamEnd) {
                     ended = true;
                 }
+                // C12 through the wrapper: a flush made with nothing pending that consumed all it was
+                // offered and left output space makes everything so far decodable
+                let spare = res.bytes_written < ol;
+                if !misuse && !ended && prev_spare && spare && res.status == Ok(miniz_oxide::MZStatus::Ok)
+                    && res.bytes_consumed == offered && (fl == MZFlush::Sync || fl == MZFlush::Full || fl == MZFlush::Partial)
+                    && points < 3
+                {
+                    points += 1;
+                    let zl = cfgj["flags"].as_i64().unwrap_or(0) & 0x1000 != 0;
+                    tr.ev(json!({"ev": "stream", "zlib": zl, "mode": "verify", "prefix": true, "z": bytes(&out_all), "plen": pos}));
+                    tr.ev(json!({"ev": "flushpoint", "flush": mzflush_name(fl), "in_total": pos, "out_total": out_all.len(), "bits_left": 0}));
+                }
+                prev_spare = spare && ol > 0;
             }
         }
     }
